@@ -20,6 +20,10 @@ TRUSTED = [
     "the XML rules as written down in Spec/JUnit.lean (references, what may appear raw in attribute values and text); "
     "Python's xml.parsers.expat as the standards-conforming judge of the files the real code wrote",
     "StringFromFormat's %s/%d formatting (vsnprintf) as modelled by fmtInt/pad3",
+    "the contract of the file seams PlatformSpecificFOpen/FPuts/FClose: the file holds exactly the bytes handed to FPuts, in order. "
+    "The model stops at the seam; the contract is TESTED, not proved: a quarter of the generated runs (and corpus cases) leave the "
+    "function pointers at the platform's real implementations, write real files into a fresh temporary directory and read them "
+    "back (with % conversions frequent in every text field)",
 ]
 ASSUMPTIONS = [
     "names, paths, messages and printed text are C strings over printable ASCII plus CR and LF (no NUL, no other control bytes, no "
@@ -39,10 +43,16 @@ RULE = ("scripted registries: 1-5 groups, pass / fail through every TestFailure 
 signature = G.signature
 
 
-def gen_case(rng, n, malformed=False, extra_chars=""):
+def gen_case(rng, n, malformed=False, extra_chars="", real_io=False):
     ops = G.gen_registry(rng, n, empty_groups=malformed or rng.random() < 0.05, repeat_groups=malformed and rng.random() < 0.5,
                          with_package=True, with_prints=True, specials=G.SPECIAL_XML + "|[]" if not extra_chars else G.SPECIAL_XML + extra_chars)
     ops.append("run")
+    if real_io:
+        # real files in a temporary directory: the names must be distinct and short enough for the file system
+        names = G.junit_file_names(G.read_registry(ops))
+        if len(set(names)) == len(names) and all(len(n) <= 200 and b"\0" not in n for n in names):
+            ops.insert(0, "realio")
+            return ops
     if rng.random() < 0.1:
         ops += G.gen_registry(rng, 2, with_filter=False, specials=G.SPECIAL_XML)
         ops.append("run")
@@ -57,7 +67,7 @@ def generate(rng, tier):
     out = []
     for i in range(n):
         size = rng.choice([1, 2, 4, 8, 16]) if tier == "quick" else rng.choice([1, 3, 8, 20, 60])
-        out.append(("gen", gen_case(rng, size)))
+        out.append(("gen", gen_case(rng, size, real_io=rng.random() < 0.25)))
     for i in range(n // 8):
         out.append(("malformed", gen_case(rng, rng.choice([1, 3, 6]), malformed=True)))
     return out
@@ -77,6 +87,8 @@ def nontrivial(r):
 
 
 def observe(r, rep):
+    if r.ops and r.ops[0] == "realio":
+        rep.count("branch.real_io_files_on_disk")
     fs = _files(r.impl)
     rep.count("files", len(fs))
     for name, b in fs:
@@ -219,7 +231,7 @@ def extra(ctx, exe):
     n = 500 if ctx.tier == "quick" else 3000
     cases = []
     for i in range(n):
-        ops = gen_case(rng, rng.choice([1, 3, 8]), extra_chars="\t" if i % 4 == 0 else "")
+        ops = gen_case(rng, rng.choice([1, 3, 8]), extra_chars="\t" if i % 4 == 0 else "", real_io=(i % 4 == 1))
         cases.append(("expat:%d" % i, ops))
     # also everything in the corpus
     from .. import flow
